@@ -504,4 +504,57 @@ def resyncN (cfg : Cfg) (recW batch : Nat) (p : Wallet × NSrv) (tip : BlockId) 
     if ok = false then (p2, false)
     else (processN cfg p2 (rescanTxNtfns cfg.C tip p2.1.syncedTo.height), true)
 
+/-! ### `Wallet.GetTransactions` at the level of records (C13, wallet level)
+
+`wallet.GetTransactions(start, end)` runs `wtxmgr.RangeTransactions(start, end)` and converts every batch the store hands
+to the callback to one `Block` of `MinedTransactions` (or to `UnminedTransactions`).  The store visits the block records
+(one per height holding a wallet transaction) ascending when `begin < end`, otherwise descending, a negative bound
+standing for the mempool height (`math.MaxInt32`), and reports the unmined batch iff one of the bounds is negative
+(`rangeBlockTransactions` / `RangeTransactions`, wtxmgr/query.go; the store itself is C13's `TxStore` model). -/
+
+/-- insertion into an ascending list (structural, so that `decide` evaluates it) -/
+def insSorted (a : Nat) : List Nat → List Nat
+  | [] => [a]
+  | b :: l => if a ≤ b then a :: b :: l else b :: insSorted a l
+
+def sortNat (l : List Nat) : List Nat := l.foldr insSorted []
+
+/-- insertion into a strictly ascending list, an element already present is not inserted again -/
+def insUniq (a : Nat) : List Nat → List Nat
+  | [] => [a]
+  | b :: l => if a < b then a :: b :: l else if a = b then b :: l else b :: insUniq a l
+
+def heightsOf (l : List Nat) : List Nat := l.foldr insUniq []
+
+/-- the heights that have a block record, strictly ascending -/
+def recordHeights (w : Wallet) : List Nat := heightsOf (w.mined.map (·.height))
+
+def maxInt32 : Nat := 2147483647
+
+def rangeBound (x : Int) : Nat := if x < 0 then maxInt32 else x.toNat
+
+/-- transaction ids reported under the block at height `h` (ascending: the canonical form of the engine) -/
+def txsAt (w : Wallet) (h : Nat) : List Nat := sortNat ((w.mined.filter (fun r => r.height == h)).map (·.tx.id))
+
+structure TxsResult where
+  mined   : List (Nat × List Nat)   -- `MinedTransactions`: (height, tx ids) in the order the blocks are reported
+  unmined : List Nat                -- `UnminedTransactions`
+deriving DecidableEq, Repr
+
+def getTransactions (w : Wallet) (from_ to : Int) : TxsResult :=
+  let b := rangeBound from_
+  let e := rangeBound to
+  let hs := recordHeights w
+  let blocks := if b < e then hs.filter (fun h => decide (b ≤ h) && decide (h ≤ e))
+                else (hs.filter (fun h => decide (e ≤ h) && decide (h ≤ b))).reverse
+  { mined := blocks.map fun h => (h, txsAt w h)
+    unmined := if from_ < 0 ∨ to < 0 then sortNat (w.unmined.map (·.id)) else [] }
+
+/-- height `h` lies in the range of `GetTransactions(from, to)` (either direction; a negative bound = mempool height) -/
+def InRange (from_ to : Int) (h : Nat) : Prop :=
+  (rangeBound from_ ≤ h ∧ h ≤ rangeBound to) ∨ (rangeBound to ≤ h ∧ h ≤ rangeBound from_)
+
+/-- the block heights reported, in order -/
+def reportedHeights (w : Wallet) (from_ to : Int) : List Nat := (getTransactions w from_ to).mined.map (·.1)
+
 end SyncTip
